@@ -2,7 +2,9 @@
     audited by Print Assumptions in the generated Audit file. *)
 From V.Lib Require Import Base MachInt.
 From V.Gen Require Import C12Consts.
-From V.C12 Require Import Model Spec ProofsPct ProofsB64 ProofsAmount ProofsRender ProofsTotal.
+From V.C12 Require Import Model Spec ProofsPct ProofsB64 ProofsAmount ProofsRender ProofsAccept ProofsTotal.
+(* the case-evaluation files belong to the closure that every run rebuilds *)
+From V.C12 Require Import Lit Corr Wf.
 Local Open Scope Z_scope.
 
 (** ** Amounts: zatoshis <-> decimal ZEC string, exactly *)
@@ -54,6 +56,37 @@ Theorem C12_request_roundtrip :
       from_uri addr addr_dec can_memo t_only (to_uri addr addr_enc r) = Ok r.
 Proof. exact request_roundtrip. Qed.
 
+(** ** Only valid requests parse: an accepted URI yields a request that satisfies the type
+    invariants and every ZIP 321 rule ([validb] = index <= 9999 /\ per payment: memo rule, zero-valued
+    transparent rule, additional-parameter names in the grammar and not reserved / [req-], no duplicate).
+    No hypothesis on the address oracle is needed. *)
+Theorem C12_accepted_is_valid :
+  forall (addr : Type) (addr_dec : bytes -> option addr) (can_memo t_only : addr -> bool) (uri : bytes) (r : request addr),
+    from_uri addr addr_dec can_memo t_only uri = Ok r ->
+    wf_requestb addr r = true /\ validb addr can_memo t_only r = true.
+Proof. exact accepted_is_valid. Qed.
+
+(** ... and re-renders to a URI that parses to the same request. *)
+Theorem C12_accepted_rerender :
+  forall (addr : Type) (addr_dec : bytes -> option addr) (addr_enc : addr -> bytes) (can_memo t_only : addr -> bool),
+    (forall a, addr_dec (addr_enc a) = Some a) ->
+    (forall a, addr_enc a <> []) ->
+    (forall a, forallb is_alnum (addr_enc a) = true) ->
+    forall (uri : bytes) (r : request addr),
+      from_uri addr addr_dec can_memo t_only uri = Ok r ->
+      from_uri addr addr_dec can_memo t_only (to_uri addr addr_enc r) = Ok r.
+Proof. exact accepted_rerender. Qed.
+
+(** A well-formed request survives the round trip exactly when it is valid. *)
+Theorem C12_roundtrip_iff_valid :
+  forall (addr : Type) (addr_dec : bytes -> option addr) (addr_enc : addr -> bytes) (can_memo t_only : addr -> bool),
+    (forall a, addr_dec (addr_enc a) = Some a) ->
+    (forall a, addr_enc a <> []) ->
+    (forall a, forallb is_alnum (addr_enc a) = true) ->
+    forall r : request addr, wf_requestb addr r = true ->
+      (from_uri addr addr_dec can_memo t_only (to_uri addr addr_enc r) = Ok r <-> validb addr can_memo t_only r = true).
+Proof. exact roundtrip_iff_valid. Qed.
+
 (** The exclusion in [validb] is necessary: with a reserved or indexed additional-parameter name every
     other rule holds, the rendering parses, and the result is a different request. *)
 Theorem C12_reserved_name_breaks_roundtrip :
@@ -68,6 +101,15 @@ Theorem C12_indexed_name_breaks_roundtrip :
   wf_requestb unit r = true /\
   u_from_uri (u_to_uri r) = Ok [(0, mkPayment tt None None None None []); (1, mkPayment tt None None None None [([97], [120])])].
 Proof. exact indexed_name_breaks_roundtrip. Qed.
+
+(** The repaired [TransactionRequest::new] refuses both witnesses and accepts the valid variant. *)
+Theorem C12_new_refuses_reserved_names :
+  request_new unit u_dec u_enc u_true u_false [mkPayment tt (Some COIN) None None None [(s_label, [120])]] = Err EParse /\
+  request_new unit u_dec u_enc u_true u_false
+    [mkPayment tt None None None None [([97; 46; 49], [120])]; mkPayment tt None None None None []] = Err EParse /\
+  request_new unit u_dec u_enc u_true u_false [mkPayment tt (Some COIN) None (Some [120]) None [([97], [120])]]
+    = Ok [(0, mkPayment tt (Some COIN) None (Some [120]) None [([97], [120])])].
+Proof. exact new_refuses_reserved_names. Qed.
 
 (** ** No input string makes the parser panic *)
 Theorem C12_from_uri_total :
